@@ -122,6 +122,14 @@ def _freeze_closure(f):
     return _pt.FunctionType(f.__code__, f.__globals__, f.__name__, f.__defaults__, cells)
 
 
+def not_(x):
+    """`not x` for the condition of a declared filter comprehension: the Python value on concrete
+    operands, the (non-forking) symbolic negation on a symbolic bool"""
+    if isinstance(x, SymBool):
+        return ~x
+    return not x
+
+
 def _map_values_list(mi):
     """the values of an ordered symbolic dict in key order as a free-standing sequence: a fresh `vals`
     with len(vals) == len(keys) and vals[j] == val[keys[j]] for every j; a dict of concrete size is
